@@ -6,6 +6,7 @@ from hypothesis import strategies as st
 from vpm.core import Prop, ExhaustiveProp
 
 PROPERTY_ID = "C20"
+FUZZ = {"props": ["gridworld", "windy"], "quick": [2, 800], "thorough": [8, 30000]}
 RULE = ("Rectangular layouts up to 5x4 over each domain's alphabet (GridWorld '. # s g x' with >=1 start; WindyGridWorld "
         "'. # @ $ x ^ v < >' with >=1 '@'; HeavenOrHell '. # s h g c' with exactly one 's'), incl. one-row / one-column "
         "grids and goals that cut the grid, passed as list or string; success / wind probabilities incl. 0 and 1, "
